@@ -10,7 +10,8 @@ SC == <<98>>                     \* "b"
 SrcTables == { <<SA, SB, SA>>, <<SC, SA>>, <<SB, SA, SC>> }         \* duplicate name; unreferenced; order # first use
 NameTables == { <<"n", "m", "n">>, <<>> }
 ContentTables(n) == { [i \in 1..n |-> <<>>], [i \in 1..n |-> IF i = 2 THEN <<"two">> ELSE <<>>], [i \in 1..n |-> <<"c">>] }
-PrefixLists == { <<>>, << <<47, 97>> >>, << <<47, 97, 47>> >>, << <<47>>, <<47, 97>> >>, << <<98>>, <<47, 97>> >> }
+PrefixLists == { <<>>, << <<47, 97>> >>, << <<47, 97, 47>> >>, << <<47>>, <<47, 97>> >>, << <<98>>, <<47, 97>> >>,
+                 << <<47>>, <<97>> >> }      \* "/" then "a": the remainder after the first strip begins with the second prefix
 VARIABLES phase, p, opts, k, b
 vars == <<phase, p, opts, k, b>>
 Init == /\ phase = "build" /\ k = 0 /\ b = BInit
